@@ -99,6 +99,12 @@ class MechAdapter(Adapter):
         # toggled by the harness, so that fix/release calls have to keep the
         # selection of sensitivities up to date themselves
         self.keep_sens = kind.endswith(':sens')
+        # '<kind>:regimen': a finite periodic regimen is (re-)set through the object
+        # under test before every simulation
+        self.regimen = ':regimen' in kind
+        # '<kind>:outs': the same outputs are selected again through the object under
+        # test before every simulation (documented to reset the sensitivities)
+        self.outs = ':outs' in kind
         kind = kind.split(':')[0]
         self.kind = kind
         if kind == 'toy':
@@ -143,7 +149,24 @@ class MechAdapter(Adapter):
     def n_fixed(self, obj):
         return obj.n_fixed_parameters()
 
+    REG = dict(dose=1.5, start=0.1, duration=0.2, period=0.4, num=2)
+
     def observe(self, obj, x, free_idx):
+        if self.regimen:
+            obj.set_dosing_regimen(**self.REG)
+        after = {}
+        if self.outs:
+            obj.set_outputs(['central.drug_amount', 'central.drug_concentration'])
+            r_ = obj.simulate(list(x), self.times)
+            # number of sensitivity columns handed out right after the selection
+            # (-1: none, the documented reset)
+            after = {'S_cols_after_outputs':
+                     [np.shape(r_[1])[2] if isinstance(r_, tuple) else -1]}
+            obj.enable_sensitivities(False)
+            y = obj.simulate(list(x), self.times)
+            obj.enable_sensitivities(True)
+            y2, S = obj.simulate(list(x), self.times)
+            return dict({'y': y, 'y_s': y2, 'S': S}, **after)
         if self.keep_sens:
             y2, S = obj.simulate(list(x), self.times)
             return {'y': y2, 'y_s': y2, 'S': S}
@@ -155,10 +178,15 @@ class MechAdapter(Adapter):
 
     def reference(self, full, free_idx):
         m = self._model()
+        if self.regimen:
+            m.set_dosing_regimen(**self.REG)
         y = m.simulate(list(full), self.times)
         m.enable_sensitivities(True)
         y2, S = m.simulate(list(full), self.times)
-        return {'y': y, 'y_s': y2, 'S': np.asarray(S)[:, :, free_idx]}
+        ref = {'y': y, 'y_s': y2, 'S': np.asarray(S)[:, :, free_idx]}
+        if self.outs:
+            ref['S_cols_after_outputs'] = [-1]
+        return ref
 
 
 class PopAdapter(Adapter):
@@ -662,6 +690,50 @@ def w_zero(case):
             'violations': viol}
 
 
+def w_intfree(case):
+    """Free parameters worth whole numbers handed over as Python ints / an integer
+    array while the fixed values are not whole numbers: exact substitution all the
+    same."""
+    kind, fixed, form = case['kind'], case['fixed'], case['form']
+    ad = adapter(kind)
+    n = len(ad.names)
+    obj = ad.make()
+    viol = []
+    ad.fix(obj, {ad.names[i]: value_of(ad, i, 'v1') for i in fixed})
+    free = [j for j in range(n) if j not in fixed]
+    whole = [1 + (k_ % 2) for k_ in range(len(free))]
+    full = [value_of(ad, i, 'v1') if i in fixed else float(whole[free.index(i)])
+            for i in range(n)]
+    x = [int(v) for v in whole]
+    if form == 'array':
+        x = np.array(x, dtype=int)
+    import warnings
+    with warnings.catch_warnings():
+        warnings.simplefilter('ignore')
+        try:
+            exp = ad.reference(full, free)
+        except Exception:
+            return {'transitions': 1, 'outcome': 'reference-rejects', 'violations': []}
+        got = ad.observe(obj, x, free, full) if isinstance(ad, PopAdapter) \
+            else ad.observe(obj, x, free)
+    for k in exp:
+        e = exp[k]
+        if isinstance(e, list) and e and isinstance(e[0], str):
+            continue
+        g = np.asarray(got[k], dtype=float)
+        e = np.asarray(e, dtype=float)
+        if g.shape != e.shape or not tol.allclose(g, e, 1e-8, 1e-10):
+            viol.append({'sub': 'int_free_' + k, 'message': '%s of a reduced %s with '
+                         'integer-typed free parameters (%s) and non-integer fixed '
+                         'values differs from the unfixed object at the substituted '
+                         'vector' % (k, kind, form), 'fixed': fixed, 'expected': e,
+                         'observed': g, 'behaviour': 'int_free'})
+    return {'transitions': 3, 'outcome': key_of([kind, fixed, form, tol.rnd(
+        [np.asarray(got[k], dtype=float) for k in sorted(got)
+         if not (isinstance(got[k], list) and got[k]
+                 and isinstance(got[k][0], str))], 8)]), 'violations': viol}
+
+
 def ops_for(n, with_eval=True):
     ops = []
     for i in range(n):
@@ -680,12 +752,13 @@ def ops_for(n, with_eval=True):
     return ops
 
 
-WORKERS = {'pop_nids': w_pop_nids, 'zero_values': w_zero}
+WORKERS = {'pop_nids': w_pop_nids, 'zero_values': w_zero, 'int_free': w_intfree}
 ALL_KINDS = ['err:G', 'err:M', 'err:CM', 'err:LN', 'mech:toy', 'mech:sbml',
              'mech:toy:sens', 'mech:sbml:sens', 'mech:sbmlren', 'mech:sbmlren:sens',
+             'mech:sbml:regimen', 'mech:sbml:outs',
              'll',
              'pred', 'poppred', 'ctrl'] + ['pop:' + k for k in POP_SPECS] + [
-                 'pop:comp:renamed', 'pop:compcov:renamed', 'pop:gp']
+                 'pop:comp:renamed', 'pop:compcov:renamed']
 for _k in ALL_KINDS:
     WORKERS['fix_' + _k] = w_history
 
@@ -735,12 +808,16 @@ def make_search(kind, depth):
 
 
 def build(tier, seed):
+    # (quick: every class of object; the thorough tier adds the larger variants of
+    # classes already present)
     kinds = ALL_KINDS if tier == 'thorough' else [
-        'err:CM', 'mech:toy', 'mech:sbml', 'mech:sbml:sens', 'mech:sbmlren:sens',
+        'err:G', 'err:M', 'err:CM', 'err:LN', 'mech:toy', 'mech:sbml',
+        'mech:sbml:regimen', 'mech:sbml:outs', 'mech:sbml:sens',
+        'mech:sbmlren:sens',
         'll', 'pred',
         'poppred', 'ctrl',
-        'pop:G1', 'pop:comp', 'pop:cov', 'pop:H1', 'pop:gp',
-        'pop:compcov:renamed']
+        'pop:G1', 'pop:LN1', 'pop:TG1', 'pop:P2', 'pop:comp', 'pop:cov', 'pop:H1',
+        'pop:gp', 'pop:compcov:renamed']
     depth = 12   # the searches stop at closure (no new abstract state)
     nids = []
     for spec in [rp.Comp([rp.H(1), rp.LN(1)]), rp.Comp([rp.G(1), rp.H(1), rp.P(1)]),
@@ -761,8 +838,23 @@ def build(tier, seed):
         for i in range(len(adapter(kind).names)):
             for zero in ('0.0', '0', '-0.0'):
                 zeros.append({'kind': kind, 'index': i, 'zero': zero})
+    intfree = []
+    for kind in ALL_KINDS:
+        if 'sbml' in kind and kind != 'mech:sbml':
+            continue
+        n_k = len(adapter(kind).names)
+        for r_ in (1, 2):
+            for fx in itertools.combinations(range(n_k), r_):
+                if len(fx) == n_k:
+                    continue
+                for form in ('list', 'array'):
+                    intfree.append({'kind': kind, 'fixed': list(fx), 'form': form})
     return {
-        'parts': [Part('pop_nids', nids, w_pop_nids,
+        'parts': [Part('int_free', intfree, w_intfree,
+                       'whole-number free parameters handed over as ints while the '
+                       'fixed values are not whole numbers: every subset of <= 2 '
+                       'fixed parameters of every reducible object'),
+                  Part('pop_nids', nids, w_pop_nids,
                        'fix by name, then change the number of individuals'),
                   Part('zero_values', zeros, w_zero,
                        'every parameter of every reducible object fixed at 0.0 / 0 '
